@@ -469,6 +469,8 @@ def check_snapshot(ctx, func, klass, loop, itexpr, rule='R2'):
 
 
 VARIANTS = [
+    M('R8', 'cflib/crtp/crtpstack.py', "        self._channel = header & 0x03", "        self._channel = header & 0x07", 'link bit leaks into the channel'),
+    M('RG', CF, "                    import traceback\n\n                    logger.error('Exception while doing callback on port'", "                    logger.error('Exception while doing callback on port'", 'handler reads a name nothing binds'),
     M('R6', CF, "        self.remove_header_callback(cb, port, 0, 0xff, 0x0)", "        self.cb = [c for c in self.cb if not (c.port == port and c.callback == cb)]", 'port removal drops every registration of cb on the port'),
     B(CF, "        self.remove_header_callback(cb, port, 0, 0xff, 0x0)",
       "        self.cb = [c for c in self.cb if not (c.port == port and c.callback == cb and c.channel == 0 and c.port_mask == 0xFF and c.channel_mask == 0)]", 'own rebuild on all five fields'),
